@@ -8,7 +8,7 @@
 From Coq Require Import ZArith List Lia Bool ZifyBool.
 From LZ4V Require Import Gen.Consts Spec.BlockSpec Model.Mem Model.Fast Model.HcEmit Model.HcMid Model.HcChain.
 From LZ4V Require Import Proofs.BlockSpecProofs Proofs.FactorSpec Proofs.FastBasics Proofs.FastCap Proofs.HcEmitProofs.
-From LZ4V Require Import Proofs.HcMidSound Proofs.HcMidCap Proofs.HcChainSearch Proofs.HcChainSound Proofs.HcChainCap.
+From LZ4V Require Import Proofs.HcMidSound Proofs.HcMidCap Proofs.HcChainSearch Proofs.HcChainSound Proofs.HcChainCap Proofs.HcChainFill.
 Import ListNotations.
 Local Open Scope Z_scope.
 
@@ -438,6 +438,174 @@ Section Parser.
       + split; [exact HB|]. split; [exact HC|]. subst st. cbn [c_tabs c_ip]. exact HT.
       + unfold mu. subst st. cbn [c_ip]. lia.
   Qed.
+
+  (* ================= fillOutput: strict end-of-block conditions (appended; nothing above is changed) =================
+     The room invariant of Proofs.HcChainFill is carried through the same walk. *)
+  Notation FInv := (cFInv vrd dictIdx s0 srcSize maxOut).
+  Notation RFill := (cRFill vrd dictIdx s0).
+
+  Lemma oes_fill : lim = FillOutput -> oes = maxOut - LASTLITERALS.
+  Proof. intros ->. reflexivity. Qed.
+
+  (* one sequence: the conclusions of enc_ok, and the room invariant / a strictly valid result *)
+  Lemma enc_both s ml off : lim = FillOutput ->
+    Base s -> CInv s -> FInv s -> c_ip s <= mflimit -> match_ok vrd lo (c_ip s) off ml -> c_ip s + ml <= matchlimit ->
+    TB (c_tabs s) iend ->
+    match c_encode vrd lim s0 srcSize s ml off oes with
+    | inl s' => (Base s' /\ CInv s' /\ c_ip s' = c_ip s + ml /\ c_anchor s' = c_ip s + ml /\ c_tabs s' = c_tabs s) /\ FInv s'
+    | inr r => RFill r
+    end.
+  Proof.
+    intros Hfo HB HC HF Hip Hm Hml HT.
+    pose proof (enc_ok s ml off HB HC Hip Hm Hml HT) as H1.
+    assert (H2 : match c_encode vrd lim s0 srcSize s ml off oes with inl s' => FInv s' | inr r => RFill r end).
+    { rewrite (oes_fill Hfo). rewrite Hfo. destruct HB as (B1 & B2 & _).
+      eapply c_encode_fill; try eassumption; lia. }
+    destruct (c_encode vrd lim s0 srcSize s ml off oes) as [s'|r]; [split; assumption | exact H2].
+  Qed.
+
+  Lemma FInv_ip_tabs s t x : FInv s -> FInv (with_ip (with_tabs s t) x).
+  Proof. intros H. apply (cFInv_same vrd dictIdx s0 srcSize maxOut s); [exact H | reflexivity | reflexivity | reflexivity]. Qed.
+  Lemma FInv_tabs s t : FInv s -> FInv (with_tabs s t).
+  Proof. intros H. apply (cFInv_same vrd dictIdx s0 srcSize maxOut s); [exact H | reflexivity | reflexivity | reflexivity]. Qed.
+  Lemma FInv_ip s x : FInv s -> FInv (with_ip s x).
+  Proof. intros H. apply (cFInv_same vrd dictIdx s0 srcSize maxOut s); [exact H | reflexivity | reflexivity | reflexivity]. Qed.
+
+  Lemma ll_fill s : lim = FillOutput -> Base s -> FInv s -> RFill (c_last_literals vrd lim s0 srcSize s maxOut).
+  Proof.
+    intros Hfo (B1 & B2 & B3 & _) HF. rewrite Hfo.
+    eapply c_ll_fill; try eassumption; lia.
+  Qed.
+
+  Definition fill_post (r : (pc * cst) + cres) : Prop :=
+    match r with
+    | inl (p', s') => FInv s'
+    | inr r => RFill r
+    end.
+
+  Lemma main_step_fill s : lim = FillOutput -> PInv PMain s -> FInv s ->
+    fill_post (main_step vrd prefixIdx dictIdx lim s0 srcSize nb s oes).
+  Proof.
+    intros Hfo (HB & HC & HT) HF. pose proof plimits as (L1 & L2 & L3).
+    pose proof HB as (B1 & B2 & B3 & B4 & B5).
+    unfold main_step. cbv zeta.
+    destruct (c_ip s <=? mflimit) eqn:E.
+    - unfold insertAndFindBestMatch.
+      destruct (wider_sound vrd Hb prefixIdx dictIdx Hidx2 (c_tabs s) (c_ip s) (c_ip s) (c_ip s) matchlimit (MINMATCH - 1) nb (hc_pa nb) HT
+                  ltac:(lia) ltac:(lia) ltac:(lia) ltac:(lia) ltac:(unfold M32 in *; lia) ltac:(unfold MINMATCH; lia))
+        as (m & t' & Hs & HT' & Hn & Hlen & Hv).
+      rewrite Hs.
+      destruct (hm_len m <? MINMATCH); unfold fill_post; [apply FInv_ip_tabs; exact HF | apply FInv_tabs; exact HF].
+    - unfold fill_post. rewrite oes_restore. apply ll_fill; assumption.
+  Qed.
+
+  Lemma search2_step_fill start0 m0 m1 s : lim = FillOutput -> PInv (PSearch2 start0 m0 m1) s -> FInv s ->
+    fill_post (search2_step vrd prefixIdx dictIdx lim s0 srcSize nb start0 m0 m1 s oes).
+  Proof.
+    intros Hfo (HB & HC & Hip & Hm1 & Ha0 & H0i & H02 & Hm0 & He & HT) HF. pose proof plimits as (L1 & L2 & L3).
+    pose proof HB as (B1 & B2 & B3 & B4 & B5).
+    pose proof (mv_len _ _ Hm1) as H14. pose proof (mv_len _ _ Hm0) as H04.
+    unfold search2_step. cbv zeta.
+    destruct (search_next_spec (c_tabs s) (c_ip s) (hm_len m1) 2 HT ltac:(lia) ltac:(lia) ltac:(lia) ltac:(lia))
+      as (start2 & m2 & t' & Hs & HT' & Hcase).
+    rewrite Hs.
+    destruct (hm_len m2 <=? hm_len m1) eqn:El.
+    - pose proof (enc_both (with_tabs s t') (hm_len m1) (hm_off m1) Hfo HB HC (FInv_tabs s t' HF) Hip (proj1 Hm1) (proj2 Hm1)
+                    ltac:(cbn [with_tabs c_tabs]; eapply TB_mono; eauto; destruct Hm1; lia)) as HE.
+      destruct (c_encode vrd lim s0 srcSize (with_tabs s t') (hm_len m1) (hm_off m1) oes) as [s'|r]; [|exact HE].
+      destruct HE as (_ & EF). exact EF.
+    - destruct (s2_restore start0 m0 (c_ip s) m1 start2) as [ip' m1'].
+      destruct (start2 - ip' <? 3); unfold fill_post; apply FInv_ip_tabs; exact HF.
+  Qed.
+
+  Lemma search3_step_fill start0 m0 m1 start2 m2 s : lim = FillOutput -> PInv (PSearch3 start0 m0 m1 start2 m2) s -> FInv s ->
+    fill_post (search3_step vrd prefixIdx dictIdx lim s0 srcSize nb start0 m0 m1 start2 m2 s oes).
+  Proof.
+    intros Hfo (HB & HC & Hm1 & Hmf1 & Hm2 & Hi2 & H2mf & Hg & H5 & H8 & HT) HF. pose proof plimits as (L1 & L2 & L3).
+    pose proof HB as (B1 & B2 & B3 & B4 & B5).
+    pose proof (mv_len _ _ Hm1) as H14.
+    unfold search3_step. cbv zeta.
+    pose proof (s3_adjust_spec (c_ip s) m1 start2 m2 Hm1 Hm2 H5 Hi2 H8 Hg) as HA. cbv zeta in HA.
+    destruct (s3_adjust (c_ip s) m1 start2 m2) as [a m]. cbn [fst snd] in HA.
+    destruct HA as (Hma & Hend2 & A1 & A2 & A3 & A4 & A5 & A6).
+    assert (Hamf : a <= mflimit) by lia.
+    assert (HTa : TB (c_tabs s) (a + hm_len m - 3)) by (rewrite Hend2; exact HT).
+    destruct (search_next_spec (c_tabs s) a (hm_len m) 3 HTa ltac:(lia) ltac:(lia) ltac:(lia) ltac:(lia))
+      as (start3 & m3 & t' & Hs & HT' & Hcase).
+    rewrite Hs.
+    assert (HTe : TB t' iend) by (eapply TB_mono; eauto; destruct Hma; lia).
+    pose proof (FInv_tabs s t' HF) as HF'.
+    destruct (hm_len m3 <=? hm_len m) eqn:El.
+    - set (m1' := if a <? c_ip s + hm_len m1 then set_len m1 (a - c_ip s) else m1).
+      assert (Hm1' : mv (c_ip s) m1' /\ hm_off m1' = hm_off m1 /\ c_ip s + hm_len m1' <= a).
+      { subst m1'. destruct (a <? c_ip s + hm_len m1) eqn:E1.
+        - split; [apply mv_short; [exact Hm1 | lia]|]. unfold set_len. cbn [hm_off hm_len]. split; [reflexivity | lia].
+        - split; [exact Hm1|]. split; [reflexivity | lia]. }
+      destruct Hm1' as (Hv1 & Ho1 & Hl1). clearbody m1'.
+      pose proof (enc_both (with_tabs s t') (hm_len m1') (hm_off m1') Hfo HB HC HF' ltac:(cbn [with_tabs c_ip]; lia) (proj1 Hv1) (proj2 Hv1) HTe) as HE.
+      destruct (c_encode vrd lim s0 srcSize (with_tabs s t') (hm_len m1') (hm_off m1') oes) as [s1|r]; [|exact HE].
+      destruct HE as ((E1 & E2 & E3 & E4 & E5) & EF). cbn [with_tabs c_ip c_tabs] in *.
+      pose proof (enc_both (with_ip s1 a) (hm_len m) (hm_off m) Hfo
+                    ltac:(apply Base_with_ip; [exact E1 | destruct Hma; lia]) E2 (FInv_ip s1 a EF) ltac:(cbn [with_ip c_ip]; lia)
+                    (proj1 Hma) (proj2 Hma) ltac:(cbn [with_ip c_tabs]; rewrite E5; exact HTe)) as HE2.
+      destruct (c_encode vrd lim s0 srcSize (with_ip s1 a) (hm_len m) (hm_off m) oes) as [s2|r]; [|exact HE2].
+      destruct HE2 as (_ & EF2). exact EF2.
+    - destruct Hcase as [Hle|(Hgt & Hmf & Hm3 & Hst & Hend)]; [lia|].
+      pose proof (mv_len _ _ Hm3) as H34.
+      destruct (start3 <? c_ip s + hm_len m1 + 3) eqn:E3.
+      + destruct (start3 >=? c_ip s + hm_len m1) eqn:E4.
+        * destruct (s3_remove2 (c_ip s) m1 a m start3 m3) as [b mb].
+          pose proof (enc_both (with_tabs s t') (hm_len m1) (hm_off m1) Hfo HB HC HF' ltac:(cbn [with_tabs c_ip]; lia) (proj1 Hm1) (proj2 Hm1) HTe) as HE.
+          destruct (c_encode vrd lim s0 srcSize (with_tabs s t') (hm_len m1) (hm_off m1) oes) as [s1|r]; [|exact HE].
+          destruct HE as (_ & EF). unfold fill_post. apply FInv_ip. exact EF.
+        * unfold fill_post. exact HF'.
+      + pose proof (s3_ml1_spec (c_ip s) m1 a m Hm1 Hma A2 A4) as HM. cbv zeta in HM.
+        destruct (s3_ml1 (c_ip s) m1 a m) as [[m1' a'] m']. cbn [fst snd] in HM.
+        destruct HM as (M1 & M2 & M3 & M4 & M5 & M6 & M7 & M8).
+        pose proof (enc_both (with_tabs s t') (hm_len m1') (hm_off m1') Hfo HB HC HF' ltac:(cbn [with_tabs c_ip]; lia) (proj1 M1) (proj2 M1) HTe) as HE.
+        destruct (c_encode vrd lim s0 srcSize (with_tabs s t') (hm_len m1') (hm_off m1') oes) as [s1|r]; [|exact HE].
+        destruct HE as (_ & EF). unfold fill_post. apply FInv_ip. exact EF.
+  Qed.
+
+  Lemma hc_step_fill p s : lim = FillOutput -> PInv p s -> FInv s ->
+    fill_post (hc_step vrd prefixIdx dictIdx lim s0 srcSize nb p s oes).
+  Proof.
+    intros Hfo H HF. destruct p as [|start0 m0 m1|start0 m0 m1 start2 m2]; cbn [hc_step].
+    - apply main_step_fill; assumption.
+    - apply search2_step_fill; assumption.
+    - apply search3_step_fill; assumption.
+  Qed.
+
+  Lemma hc_run_fill : lim = FillOutput -> forall fuel p s, PInv p s -> FInv s ->
+    RFill (hc_run vrd prefixIdx dictIdx lim s0 srcSize nb fuel p s oes).
+  Proof.
+    intros Hfo. induction fuel as [|f IH]; intros p s HI HF; [exact I|].
+    cbn [hc_run]. pose proof (hc_step_ok p s HI) as Hs. pose proof (hc_step_fill p s Hfo HI HF) as Hf.
+    destruct (hc_step vrd prefixIdx dictIdx lim s0 srcSize nb p s oes) as [[p' s']|r]; cbn [step_post fill_post] in *.
+    - destruct Hs as (H1 & _). apply IH; assumption.
+    - exact Hf.
+  Qed.
+
+  (* LZ4HC_compress_hashChain with limit == fillOutput: the block is STRICTLY valid for the consumed prefix *)
+  Theorem hc_compress_fill_strict t : lim = FillOutput -> TB t s0 ->
+    RFill (hc_compress vrd prefixIdx dictIdx lim s0 srcSize maxOut nb t).
+  Proof.
+    intros Hfo HT. pose proof plimits as (L1 & L2 & L3). unfold hc_compress. cbv zeta. rewrite oes_def.
+    set (st := mkS s0 s0 0 [] t 0).
+    assert (HB : Base st).
+    { unfold HcChainSound.Base. subst st. cbn [c_ip c_anchor c_op c_rout].
+      split; [lia|]. split; [lia|]. split; [lia|]. split; [|reflexivity].
+      exists []. cbn. split; [reflexivity|]. split; [exact I|]. split; [reflexivity | exact I]. }
+    assert (HC : CInv st).
+    { unfold HcChainCap.CInv. subst st. cbn [c_hw c_op c_anchor]. pose proof chw_nonneg.
+      split; [lia|]. split; [lia|]. split; [intros; lia | intros; lia]. }
+    assert (HF : FInv st) by (subst st; apply cFInv_init).
+    destruct (srcSize <? LZ4_minLength) eqn:E.
+    - apply ll_fill; assumption.
+    - apply hc_run_fill; [exact Hfo | | exact HF].
+      split; [exact HB|]. split; [exact HC|]. subst st. cbn [c_tabs c_ip]. exact HT.
+  Qed.
 End Parser.
 
 Print Assumptions hc_compress_ok.
+Print Assumptions hc_compress_fill_strict.
